@@ -35,6 +35,7 @@ type E7Spec struct {
 	Immutable     []ImmutableSpec    `json:"input_immutability"`
 	JSON          []JSONSpec         `json:"json_closure"`
 	NoExit        []NoExitSpec       `json:"no_exit"`
+	MethodKeyed   []FuncRuleSpec     `json:"method_keyed_maps"`
 }
 
 type FuncRuleSpec struct {
@@ -130,6 +131,9 @@ func runE7(p *Program, sp *Spec, c *Collector) {
 	}
 	for _, j := range t.JSON {
 		runJSONClosure(p, c, j)
+	}
+	for _, mk := range t.MethodKeyed {
+		runMethodKeyed(p, c, mk)
 	}
 	for _, n := range t.NoExit {
 		runNoExit(p, sp, c, n)
@@ -2013,5 +2017,56 @@ func runDoubleRegistration(p *Program, c *Collector, a FuncRuleSpec) {
 				}
 			}
 		}
+	}
+}
+
+
+// ---------------------------------------------------------------------------------------------
+// maps keyed by a method's name: methods are identified by (type, name) only, so overloads share a key. A store inside the
+// loop over a type's Functions must therefore accumulate (m[k] = append(m[k], …), m[k]++) or be idempotent (the value is
+// the key or a constant); a plain m[k] = v keeps the last overload and silently drops the others.
+
+func runMethodKeyed(p *Program, c *Collector, a FuncRuleSpec) {
+	n := 0
+	for _, fn := range expandFuncs(p, c, a.Funcs, a.Props...) {
+		sf := newSymFn(p, fn, 0)
+		for _, b := range fn.Blocks {
+			for _, in := range b.Instrs {
+				mu, ok := in.(*ssa.MapUpdate)
+				if !ok {
+					continue
+				}
+				// innermost enclosing loop must range over a Functions field
+				h, _ := sf.loopOf(b)
+				if h == nil {
+					continue
+				}
+				coll := sf.loopCollection(h)
+				if coll == nil || coll.Op != "field" || coll.Name != "Functions" {
+					continue
+				}
+				n++
+				m, k, v := sf.val(mu.Map), sf.val(mu.Key), sf.val(mu.Value)
+				key := fmt.Sprintf("methodkeyed:%s %s[%s]", p.FuncKey(fn), clip(m.String(), 60), clip(k.String(), 100))
+				accum := false
+				v.walk(func(x *Sym) {
+					if (x.Op == "lookup" || x.Op == "has") && len(x.Kids) == 2 && x.Kids[0].String() == m.String() && x.Kids[1].String() == k.String() {
+						accum = true
+					}
+				})
+				_, isConst := symStr(v)
+				switch {
+				case accum:
+					c.Ob(a.Props, "E7.method-keyed-map", key, Discharged, "the store accumulates into the entry of the key (overloads add up)", p.InstrPos(mu), true)
+				case v.String() == k.String() || isConst || v.Op == "const":
+					c.Ob(a.Props, "E7.method-keyed-map", key, Discharged, "idempotent store (value is the key or a constant)", p.InstrPos(mu), true)
+				default:
+					c.Ob(a.Props, "E7.method-keyed-map", key, Violated, a.What+": inside the loop over a type's Functions the entry is overwritten, not accumulated: methods are keyed by name, so of two overloads only the last one's value survives", p.InstrPos(mu), false)
+				}
+			}
+		}
+	}
+	if n == 0 {
+		c.Ob(a.Props, "E7.method-keyed-map", "methodkeyed:"+strings.Join(a.Funcs, ","), Undecided, a.What+": no map store inside a loop over Functions found (anchor lost)", "", false)
 	}
 }
